@@ -354,6 +354,7 @@ class Normaliser(object):
         self.skipped = []      # (helper name, caller, reason)
         self.helpers = {}
         self._fstrings_to_format()
+        self._fold_delegates()
         self._collect()
 
     def _collect(self):
@@ -754,6 +755,43 @@ class Normaliser(object):
                                 b.append(ast.copy_location(ast.Pass(), d))
                             self.inlined.append((d.name, fn.name, 'def-to-lambda'))
 
+    def _fold_delegates(self):
+        """a static method that only forwards its parameters to a new module-level function of the same module
+        (`def m(a, b): return _f(a, b)`) gets that function's body back; other calls of `_f` become `Cls.m`"""
+        sigs = pinned_signatures()
+        for mn, t in self.trees.items():
+            funcs = {s.name: s for s in t.body if isinstance(s, ast.FunctionDef)}
+            for c in [s for s in t.body if isinstance(s, ast.ClassDef)]:
+                for m in [x for x in c.body if isinstance(x, ast.FunctionDef)]:
+                    if not any(isinstance(d, ast.Name) and d.id == 'staticmethod' for d in m.decorator_list) or len(m.decorator_list) != 1:
+                        continue
+                    body = _docless(m.body)
+                    if not (len(body) == 1 and isinstance(body[0], ast.Return) and isinstance(body[0].value, ast.Call) and
+                            isinstance(body[0].value.func, ast.Name) and body[0].value.func.id in funcs):
+                        continue
+                    f = funcs[body[0].value.func.id]
+                    if '%s::::%s' % (mn, f.name) in sigs or f.decorator_list:
+                        continue
+                    params = [a.arg for a in m.args.args]
+                    call = body[0].value
+                    if call.keywords or [a.id if isinstance(a, ast.Name) else None for a in call.args] != params or \
+                            [a.arg for a in f.args.args] != params or f.args.vararg or f.args.kwarg or m.args.vararg or m.args.kwarg or \
+                            f.args.defaults or m.args.defaults:
+                        continue
+                    # every other use of f in the module must be a plain call
+                    uses = [n for n in ast.walk(t) if isinstance(n, ast.Name) and n.id == f.name]
+                    calls = [n for n in ast.walk(t) if isinstance(n, ast.Call) and isinstance(n.func, ast.Name) and n.func.id == f.name]
+                    if len(uses) != len(calls):
+                        continue
+                    for n in calls:
+                        n.func = ast.copy_location(ast.Attribute(value=ast.Name(id=c.name, ctx=ast.Load()), attr=m.name, ctx=ast.Load()), n.func)
+                    doc = m.body[:len(m.body) - len(body)]
+                    m.body = doc + _docless(f.body)
+                    t.body.remove(f)
+                    del funcs[f.name]
+                    self.inlined.append((f.name, '%s.%s' % (c.name, m.name), 'delegate-folded'))
+            ast.fix_missing_locations(t)
+
     def _fstrings_to_format(self):
         """f'{a}/{b:.2f}' -> '{}/{:.2f}'.format(a, b): one template idiom for the rules (the code base itself uses .format)"""
         norm_ = self
@@ -794,6 +832,7 @@ class Normaliser(object):
     def run(self):
         self._defs_to_lambdas()
         if not self.helpers:
+            self._ifs_to_conditional_expressions()
             return self
         for _ in range(8):
             self.changed = False
@@ -810,9 +849,30 @@ class Normaliser(object):
             self._collect_refresh()
         self._drop_unused()
         self._propagate_temporaries()
+        self._ifs_to_conditional_expressions()
         for t in self.trees.values():
             ast.fix_missing_locations(t)
         return self
+
+    def _ifs_to_conditional_expressions(self):
+        """`if c: T = a else: T = b` (one plain assignment to the same target on each side) -> `T = a if c else b`: one form for the
+        rules, whichever way the code is written"""
+        n_ = 0
+        for t in self.trees.values():
+            for holder in ast.walk(t):
+                for fld in ('body', 'orelse', 'finalbody'):
+                    b = getattr(holder, fld, None)
+                    if not (isinstance(b, list) and b and isinstance(b[0], ast.stmt)):
+                        continue
+                    for i, s in enumerate(b):
+                        if isinstance(s, ast.If) and len(s.body) == 1 and len(s.orelse) == 1 and isinstance(s.body[0], ast.Assign) and \
+                                isinstance(s.orelse[0], ast.Assign) and len(s.body[0].targets) == 1 and len(s.orelse[0].targets) == 1 and \
+                                _same(s.body[0].targets[0], s.orelse[0].targets[0]) and not isinstance(s.body[0].targets[0], (ast.Tuple, ast.List)):
+                            b[i] = ast.copy_location(ast.Assign(targets=s.body[0].targets,
+                                                                value=ast.IfExp(test=s.test, body=s.body[0].value, orelse=s.orelse[0].value)), s)
+                            n_ += 1
+        if n_:
+            self.inlined.append(('if/else assignments', str(n_), 'to-conditional-expression'))
 
     def _propagate_temporaries(self):
         """`tmp__iN = name` introduced by inlining, where `name` is bound once in the function: tmp is that name"""
